@@ -71,7 +71,7 @@ static void gen_crystal(xv_rng *r, m_crystal *c, const char *forced_name) {
     /* well-conditioned cells only: the volume formula cancels when 1-cos2a-cos2b-cos2g+2cacbcg is small */
     if (isfinite(v) && v > 0.3 * c->cell[0] * c->cell[1] * c->cell[2]) break;
   }
-  c->n_atom = 1 + xv_below(r, 12);
+  c->n_atom = xv_below(r, 16) ? 1 + xv_below(r, 12) : 0;     /* now and then a crystal without atoms (legal through Crystal_AddCrystal) */
   for (k = 0; k < c->n_atom; k++) { c->atom[k].Zatom = 1 + xv_below(r, 92); c->atom[k].fraction = xv_below(r, 3) ? 1.0 : (1 + xv_below(r, 1024)) / 1024.0;
     c->atom[k].x = xv_below(r, 4096) / 4096.0; c->atom[k].y = xv_below(r, 4096) / 4096.0; c->atom[k].z = xv_below(r, 4096) / 4096.0; }
 }
@@ -200,7 +200,7 @@ static void crystal_history(long hno, int maxlen, int builtin, const char *tmpdi
       check_array(&A, "null-add");
     } else if (op < 68 && !builtin) {                                       /* ---- crystal files */
       int kind = xv_below(&r, 10), ncr = 1 + xv_below(&r, kind < 5 ? 30 : 6), k, corrupt = 0, badpos = -1, dup = 0; m_crystal *fc = malloc(sizeof(m_crystal) * ncr); FILE *f; int ok = 1;
-      for (k = 0; k < ncr; k++) { int j, clash; do { gen_crystal(&r, &fc[k], NULL); clash = m_find(&A, fc[k].name) >= 0; for (j = 0; j < k; j++) if (!strcmp(fc[j].name, fc[k].name)) clash = 1; } while (clash); }
+      for (k = 0; k < ncr; k++) { int j, clash; do { gen_crystal(&r, &fc[k], NULL); clash = m_find(&A, fc[k].name) >= 0 || fc[k].n_atom == 0; for (j = 0; j < k; j++) if (!strcmp(fc[j].name, fc[k].name)) clash = 1; } while (clash); }
       if (kind >= 5 && kind < 8) { corrupt = 1 + xv_below(&r, 5); badpos = xv_below(&r, ncr); }
       else if (kind == 8 && A.n) { dup = 1; badpos = xv_below(&r, ncr); strcpy(fc[badpos].name, A.c[xv_below(&r, A.n)].name); }
       else if (kind == 9) { corrupt = 6; }                                   /* truncated mid-definition */
@@ -252,7 +252,7 @@ static void crystal_history(long hno, int maxlen, int builtin, const char *tmpdi
       g = Crystal_GetCrystal(A.c[k].name, A.arr, &e); if (e) { xrl_error_free(e); e = NULL; }
       if (!g) continue;
       cp = Crystal_MakeCopy(g, &e); count_op(OP_COPY, cp ? 0 : 1);
-      g->atom[0].Zatom = -5; g->name[0] = '!'; Crystal_Free(g);
+      if (g->n_atom > 0) g->atom[0].Zatom = -5; g->name[0] = '!'; Crystal_Free(g);
       if (!cp || e) { hm_violation("c14:makecopy-failed", e ? e->message : "NULL"); if (e) xrl_error_free(e); }
       if (cp) { if (!same_crystal(cp, &A.c[k], !builtin, why, sizeof why)) hm_violation("c14:copy-differs-after-original-freed", why); Crystal_Free(cp); }
     } else if (op < 94) {
